@@ -148,7 +148,7 @@ func boundaryPrograms(r *rand.Rand, n, maxAlloc int) [][]Op {
 	for i := 0; i < n; i++ {
 		switch i % 4 {
 		case 0: // many allocated numbers, then compressed objects and a plain one
-			k := []int{250, 253, 254, 255, 256, 300, 4000, 8000}[r.Intn(8)]
+			k := []int{250, 254, 255, 256, 256, 257, 300, 300, 4000, 8000}[r.Intn(10)]
 			if k > maxAlloc {
 				k = 250 + r.Intn(50)
 			}
@@ -178,8 +178,18 @@ func BoundaryJobs(ctx *core.Ctx, f Family, n, maxAlloc int) []Job {
 	cfgs := configsOf(f)
 	r := ctx.Rand("boundary-" + f.String())
 	var jobs []Job
-	for _, p := range boundaryPrograms(r, n, maxAlloc) {
-		jobs = append(jobs, Job{Cfg: cfgs[r.Intn(len(cfgs))], Prog: p, Seed: r.Int63()})
+	for i, p := range boundaryPrograms(r, n, maxAlloc) {
+		c := cfgs[r.Intn(len(cfgs))]
+		if i%4 == 0 {
+			// a file so small that every offset fits one byte while object
+			// numbers need two: no encryption, minimal values
+			c.Tiny = true
+			for c.Enc != "none" {
+				c = cfgs[r.Intn(len(cfgs))]
+				c.Tiny = true
+			}
+		}
+		jobs = append(jobs, Job{Cfg: c, Prog: p, Seed: r.Int63()})
 	}
 	return jobs
 }
